@@ -89,7 +89,9 @@ int main(int argc,char **argv){
       if(iscl){
         /* ov_crosslap(A,D): A stays at the old position and supplies the lapping data, D is a fresh handle sought to the target;
            D2 is D's plain twin.  What is compared is D against D2, exactly as a lapped seek against the plain seek. */
-        if(hopen(&D,file,n,hs)||hopen(&D2,file,n,hs)){ printf("open failed\n"); break; }
+        /* every other time the second handle decodes at the other half-rate setting (refused on 64-sample blocks: then the same) */
+        int hs2=(pre&1)?!hs:hs;
+        if(hopen(&D,file,n,hs2)||hopen(&D2,file,n,hs2)){ printf("open failed\n"); break; }
         LA=&D.vf; LB=&D2.vf;
       }
       if(!strcmp(kind,"pl")){ rcA=ov_pcm_seek_lap(LA,(ogg_int64_t)target); rcB=ov_pcm_seek(LB,(ogg_int64_t)target); }
@@ -119,14 +121,14 @@ int main(int argc,char **argv){
       }else{
         lapped++;
         if(ov_pcm_tell(LA)!=ov_pcm_tell(LB)){ printf("prop lapland FAIL %ld %ld\n",(long)ov_pcm_tell(LA),(long)ov_pcm_tell(LB)); bad++; }
-        vorbis_info *nvi=ov_info(LB,-1); int ch2=nvi?nvi->channels:0; long n2=nvi?vorbis_info_blocksize(nvi,0)>>(1+hs):0;
+        vorbis_info *nvi=ov_info(LB,-1); int ch2=nvi?nvi->channels:0; int hsB=ov_halfrate_p(LB); long n2=nvi?vorbis_info_blocksize(nvi,0)>>(1+hsB):0;
         /* B may not be primed yet: the new link is known after the first read */
         /* prime B (zero-length read) to see how many samples are pending at the landing position */
         long pendB=0; { float **p0; int b0=-1; ov_read_float(LB,&p0,0,&b0); if(LB->ready_state==4)pendB=vorbis_synthesis_pcmout(&LB->vd,NULL); }
         int lkA=-1,lkB=-1; long K=2000;
         memset(bufA,0,sizeof bufA); memset(bufB,0,sizeof bufB);   /* links differ in channel count: unused channels compare as zero */
         long ga=readn(LA,pA,MAXCH,K,&lkA,0), gb=readn(LB,pB,MAXCH,K,&lkB,0);
-        if(lkB>=0){ nvi=ov_info(LB,lkB); ch2=nvi->channels; n2=vorbis_info_blocksize(nvi,0)>>(1+hs); }
+        if(lkB>=0){ nvi=ov_info(LB,lkB); ch2=nvi->channels; n2=vorbis_info_blocksize(nvi,0)>>(1+hsB); }
         long nn=n1<n2?n1:n2;
         if(ga!=gb||lkA!=lkB){ printf("prop lapcount FAIL %ld %ld links %d %d\n",ga,gb,lkA,lkB); bad++; }
         else{
@@ -137,7 +139,7 @@ int main(int argc,char **argv){
           if(m==n1&&ga>=nn){
             /* window table: identical for equal sizes; take it from whichever handle has that size ready */
             const float *w=NULL;
-            if(LB->ready_state==4&&(vorbis_info_blocksize(ov_info(LB,-1),0)>>(1+hs))==nn)w=vorbis_window(&LB->vd,0);
+            if(LB->ready_state==4&&(vorbis_info_blocksize(ov_info(LB,-1),0)>>(1+hsB))==nn)w=vorbis_window(&LB->vd,0);
             if(!w&&C.vf.ready_state==4&&(vorbis_info_blocksize(ov_info(&C.vf,-1),0)>>(1+hs))==nn)w=vorbis_window(&C.vf.vd,0);
             if(w){
               int okin=1,late=0; formula++;
